@@ -55,6 +55,10 @@ CHECKS = {
    "for every record type of the codec corpus and several boundary-driven values with distinct encodings, EVERY cut point 0 <= k < len is executed against UnmarshalBebop (exactly sized buffer) and DecodeBebop (metering reader; EOF, io.ErrUnexpectedEOF and generic error endings) in driver children; per cut: error returned, no panic / process death / runaway / CPU budget, exact allocation within 64KiB + 1024*len",
    "exhaustive over cut points per encoding, sampled over values and schemas (matrix complete for single shapes x contexts); 6.6e5 cuts per quick run",
    "runtime monitoring: exhaustive truncation fault enumeration with boundary monitors (panic, runaway, CPU, allocation meters)"),
+ "C07": ("exploration",
+   "valid encodings of every record type of the codec corpus are corrupted structure-aware using the reference codec's per-byte role map (all length/count prefixes x hostile values, all tag bytes x other values, payload flips, splices, random tails) and joined by all-00/all-FF strings of every length <= 16 and seeded random strings; ~7e5 inputs per quick run go to UnmarshalBebop and DecodeBebop in driver children under RLIMIT_AS; oracle: normal return, no panic / death / runaway / CPU > 2 s, exact allocation <= 64KiB + 1024*len",
+   "held on the inputs explored; 'unbounded' is operationalised as more than 64KiB + 1024 bytes per input byte; one class (arrays of zero-wire-size elements) is a recorded known finding",
+   "runtime monitoring: structure-aware corruption workload with boundary monitors (panic, OOM under RLIMIT_AS, runaway reader, CPU budget, exact allocation meter)"),
 }
 DESIGN = {i: "DESIGN.md section 4, %s" % i for i in CHECKS}
 
